@@ -1,3 +1,4 @@
 import Audit.Tool
 import Uds.Props.C06
+import Uds.Props.C06Call
 #audit Uds.Props.C06
